@@ -8,14 +8,15 @@ Mirrors `loki/tools/strings.py` (class `JoinableStringList`) and `loki/backend/p
   `width` and `cont` (that is how `Stringifier.join_items` builds them); this is the `Cfg`.
 * `mkCfg` — the constructor's treatment of `cont` (split after the newline, pad to two parts, strip blanks when
   both parts together reach the width, the two assertions).
-* `chunks` — the chunker of `_add_item_to_line`: `_pattern_quoted_string = (?:'.*?')|(?:".*?")` driven by
+* `chunks` — the chunker of `_add_item_to_line`: `_pattern_quoted_string = (?:'(?:[^'\n]|'')*')|(?:"(?:[^"\n]|"")*")` driven by
   `finditer`, and `_pattern_chunk_separator = (\s|\)(?!%)|\n)` driven by `split`, as explicit character scanners.
-* `addItem` (with `trySplit`, `itemStr`) / `toStrLoop` / `strItem` — `_add_item_to_line`, `_to_str`, `__str__`, mutually recursive on a fuel
+* `addItem` (with `trySplit`, `flatItem`) / `toStrLoop` / `strItem` — `_add_item_to_line`, `_to_str`, `__str__`, mutually recursive on a fuel
   argument (every call consumes one unit; the driver supplies far more than any input needs).
 * `addStr`, `raddStr`, `cat` — `__add__` / `__radd__`.
 * `formatLine` — `Stringifier.format_line`.
 
-Python exceptions are results: `Err.assertion` (constructor asserts), `Err.attribute` (`new_item.items` on `None`).
+Python exceptions are results: `Err.assertion` (constructor asserts); `Err.attribute` is no longer produced (the code now
+returns when `new_item is None`).
 Characters: ASCII (`\s` and `str.rstrip` are modelled for the ASCII whitespace characters).
 -/
 namespace LokiModel.C04
@@ -80,27 +81,44 @@ def splitSep : Str → Str → List Str
 
 def isQuote (c : Char) : Bool := c = '\'' || c = '"'
 
-/-- is there a closing `q` before the next newline (`.` does not match `'\n'`) -/
-def hasClose (q : Char) : Str → Bool
-  | [] => false
-  | c :: cs => if c = q then true else if c = '\n' then false else hasClose q cs
+/-- one alternative of `_pattern_quoted_string` after the opening quote `q`: `(?:[^q\n]|qq)*q`, greedy with
+backtracking.  Returns the rest of the match (including the closing quote) and the text after it.  A doubled quote
+stays inside the match; only when the continuation after a doubled quote cannot be closed (end of text or newline
+first) does the engine back up and close the match at the first quote of that pair. -/
+def matchLit (q : Char) : Str → Option (Str × Str)
+  | [] => none
+  | [c] => if c = q then some ([c], []) else none
+  | c :: c2 :: cs2 =>
+      if c = q then
+        if c2 = q then
+          match matchLit q cs2 with
+          | some (b, r) => some (c :: c2 :: b, r)
+          | none => some ([c], c2 :: cs2)
+        else some ([c], c2 :: cs2)
+      else if c = '\n' then none
+      else match matchLit q (c2 :: cs2) with
+        | some (b, r) => some (c :: b, r)
+        | none => none
 
 def flushPlain (acc : Str) : List Str := if acc = [] then [] else splitSep [] acc.reverse
 
-/-- the loop over `_pattern_quoted_string.finditer(item_str)`; `none` = outside a match (plain text collected
-in `acc`, reversed), `some q` = inside a match opened by `q` -/
-def chunksAux : Option Char → Str → Str → List Str
-  | none, acc, [] => flushPlain acc
-  | some _, acc, [] => [acc.reverse]
-  | none, acc, c :: cs =>
-      if isQuote c && hasClose c cs then flushPlain acc ++ chunksAux (some c) [c] cs
-      else chunksAux none (c :: acc) cs
-  | some q, acc, c :: cs =>
-      if c = q then (c :: acc).reverse :: chunksAux none [] cs
-      else chunksAux (some q) (c :: acc) cs
+/-- the loop over `_pattern_quoted_string.finditer(item_str)`; the counter is the number of characters of the current
+match still to be read (`0` = outside a match, plain text collected in `acc`, reversed) -/
+def chunksAux : Nat → Str → Str → List Str
+  | 0, acc, [] => flushPlain acc
+  | _ + 1, acc, [] => [acc.reverse]
+  | 0, acc, c :: cs =>
+      if isQuote c then
+        match matchLit c cs with
+        | some (b, _) => flushPlain acc ++ chunksAux b.length [c] cs
+        | none => chunksAux 0 (c :: acc) cs
+      else chunksAux 0 (c :: acc) cs
+  | n + 1, acc, c :: cs =>
+      if n = 0 then (c :: acc).reverse :: chunksAux 0 [] cs
+      else chunksAux n (c :: acc) cs
 
 /-- `chunk_list` of `_add_item_to_line` for `item_str = s` -/
-def chunks (s : Str) : List Str := chunksAux none [] s
+def chunks (s : Str) : List Str := chunksAux 0 [] s
 
 /-! ## placing chunks (the last part of `_add_item_to_line`) -/
 
@@ -152,6 +170,21 @@ def joinSep (sep : Str) : List Str → Str
   | [] => []
   | [x] => x
   | x :: y :: r => x ++ sep ++ joinSep sep (y :: r)
+
+mutual
+/-- `item_str` of `_add_item_to_line`: the string itself, or `item._flat()` for a list -/
+def flatItem : Item → Str
+  | .str s => s
+  | .jsl items sep _ => flatItems sep items
+/-- `JoinableStringList._flat`: all items joined without wrapping; items that print as `''` are skipped together
+with their separator, the separator is left out after the last entry (by position), as in `_to_str` -/
+def flatItems (sep : Str) : List Item → Str
+  | [] => []
+  | x :: rest =>
+      let p := flatItem x
+      if p.isEmpty then flatItems sep rest
+      else p ++ (if rest.isEmpty then [] else sep) ++ flatItems sep rest
+end
 
 /-- result of the item loop of `_to_str` -/
 inductive LoopRes where
@@ -213,14 +246,8 @@ def trySplit : Nat → Cfg → Str → Item → Bool → Except Err (Option (Str
                   pure (some (nl, (line_ ++ cfg.c0) :: ls))
                 else pure none
             | .str _ => pure none
-        | .done _ _ => .error .attribute        -- `new_item` is `None`
+        | .done lines line_ => pure (some (lines.flatten ++ line_, []))   -- `new_item is None`: `return line_, []`
       else pure none
-
-/-- `item_str` of `_add_item_to_line` ("We simply join up the items here…") -/
-def itemStr : Nat → Cfg → Item → Except Err Str
-  | 0, _, _ => .error .fuel
-  | _ + 1, _, .str t => .ok t
-  | n + 1, cfg, .jsl items sep _ => (strItems n cfg items).map (joinSep sep)
 
 /-- `_add_item_to_line(line, item)`: returns the new line and the lines wrapped on the way -/
 def addItem : Nat → Cfg → Str → Item → Except Err (Str × List Str)
@@ -237,9 +264,7 @@ def addItem : Nat → Cfg → Str → Item → Except Err (Str × List Str)
         | some r => pure r
         | none =>
           if fits then pure (itemLine, [line ++ cfg.c0])
-          else do
-            let t ← itemStr n cfg item
-            pure (chunkPath cfg line (chunks t))
+          else pure (chunkPath cfg line (chunks (flatItem item)))
 end
 
 /-- fuel used by the driver and by `render`: more than any call tree needs -/
@@ -258,82 +283,6 @@ def segments : Nat → Cfg → Item → Except Err (List Str × Str)
         | .ok (.done lines line) => .ok (lines, line)
         | .ok (.stopped l _) => .ok ([], l)
         | .error e => .error e
-
-/-! ## known-finding class "doubled-quote-split" -/
-
-/-- text `a` ends with, and text `b` starts with, the same quote character -/
-def dqPair (a b : Str) : Bool :=
-  match a.getLast?, b.head? with
-  | some x, some y => x = y && isQuote x
-  | _, _ => false
-
-/-- `a` is a wrapped line (ends with `cont[0]`), `b` the line after it (starts with `cont[1]`): the break sits
-between two equal quote characters -/
-def dqBreak (cfg : Cfg) (a b : Str) : Bool :=
-  dqPair (a.take (a.length - cfg.c0.length)) (b.drop cfg.c1.length)
-
-def anyAdj (f : Str → Str → Bool) : List Str → Bool
-  | a :: b :: r => f a b || anyAdj f (b :: r)
-  | _ => false
-
-/-- **known class `doubled-quote-split`**: some line break of `str(item)` falls between two equal quote characters -/
-def knownDQ (fuel : Nat) (cfg : Cfg) (item : Item) : Bool :=
-  match segments fuel cfg item with
-  | .ok (lines, line) => anyAdj (dqBreak cfg) (lines ++ [line])
-  | .error _ => false
-
-/-! ## known-finding classes "nested-empty-item" and "nested-rewrap" (decidable on the input tree) -/
-
-mutual
-/-- nesting depth: a string is 0, a list is one more than its deepest item -/
-def depth : Item → Nat
-  | .str _ => 0
-  | .jsl items _ _ => depthList items + 1
-def depthList : List Item → Nat
-  | [] => 0
-  | x :: xs => max (depth x) (depthList xs)
-end
-
-def isEmptyStr (fuel : Nat) (cfg : Cfg) (x : Item) : Bool :=
-  match strItem fuel cfg x with
-  | .ok s => s.isEmpty
-  | .error _ => false
-
-mutual
-/-- **known class `nested-empty-item`**: a non-root list with more than one item, one of which prints as `''`
-(the chunker re-joins such a list with `sep.join`, which brings back the separator of the empty item) -/
-def knownNE (fuel : Nat) (cfg : Cfg) : Bool → Item → Bool
-  | _, .str _ => false
-  | root, .jsl items _ _ =>
-      (!root && items.length > 1 && items.any (isEmptyStr fuel cfg)) || knownNEList fuel cfg items
-def knownNEList (fuel : Nat) (cfg : Cfg) : List Item → Bool
-  | [] => false
-  | x :: xs => knownNE fuel cfg false x || knownNEList fuel cfg xs
-end
-
-/-- length of `str(x)` at a width that is never reached -/
-def wideLen (fuel : Nat) (cfg : Cfg) (x : Item) : Nat :=
-  match strItem fuel { cfg with W := cfg.W + 1000000000 } x with
-  | .ok s => s.length
-  | .error _ => 0
-
-def isList : Item → Bool
-  | .jsl .. => true
-  | .str _ => false
-
-mutual
-/-- **known class `nested-rewrap`**: a non-root list has an item that is a list which does not fit on one line once the
-separators of its ancestors (total length `S`) are appended to it — printed on its own with `str(i)` it wraps, and the
-chunker then re-chunks text that already contains continuation markers -/
-def knownRW (fuel : Nat) (cfg : Cfg) : Bool → Nat → Item → Bool
-  | _, _, .str _ => false
-  | root, S, .jsl items sep _ =>
-      (!root && items.any (fun x => isList x && wideLen fuel cfg x + (S + sep.length) + cfg.c0.length > cfg.W))
-        || knownRWList fuel cfg (S + sep.length) items
-def knownRWList (fuel : Nat) (cfg : Cfg) : Nat → List Item → Bool
-  | _, [] => false
-  | S, x :: xs => knownRW fuel cfg false S x || knownRWList fuel cfg S xs
-end
 
 /-! ## `Stringifier.format_line` -/
 
